@@ -94,6 +94,8 @@ func runC20(tb ev.TB, p c20Prog) ev.Result {
 	createGen := map[string]int{}
 	sinceCreate := map[string]int{} // keys created on the creator instance since id was created (eviction estimate)
 	burstSeq := 0
+	var sharedProvider idp.Interface // the provider object of the first identity created in this program
+	sharedFor := ""
 	nt := false
 	classes := map[string]bool{}
 
@@ -303,6 +305,27 @@ func runC20(tb ev.TB, p c20Prog) ev.Result {
 			if err := e.Verify(b.Provider, world.IO(world.CodecDefault, 0)); err != nil {
 				tb.Fatalf("op #%d: entry signed with the identity does not verify: %v", i, err)
 			}
+			// the provider object is not part of the identity record: an application that restores its identities
+			// attaches ONE provider to all of them (the library's decoder does the same for every record it reads).
+			// An entry signed with this identity through the provider another identity was created with verifies
+			// under this identity's published key all the same.
+			if sharedProvider == nil {
+				sharedProvider, sharedFor = a.Provider, a.ID
+			}
+			if sharedFor != a.ID {
+				classes["identity-through-a-shared-provider"] = true
+				restored := &idp.Identity{ID: a.ID, PublicKey: a.PublicKey, Signatures: a.Signatures, Type: a.Type, Provider: sharedProvider}
+				e2, err := entry.CreateEntryWithIO(ctx, st.API(), restored, &entry.Entry{LogID: "L", Payload: []byte("q")}, nil, world.IO(world.CodecDefault, 0))
+				if err != nil {
+					tb.Fatalf("op #%d: entry creation with the restored identity (provider shared with identity %s) failed: %v", i, sharedFor, err)
+				}
+				if !bytes.Equal(e2.GetKey(), a.PublicKey) {
+					tb.Fatalf("op #%d: entry key differs from the restored identity's public key", i)
+				}
+				if err := e2.Verify(b.Provider, world.IO(world.CodecDefault, 0)); err != nil {
+					tb.Fatalf("op #%d: entry signed with identity %s through the provider object identity %s was created with does not verify under its published key: %v", i, a.ID, sharedFor, err)
+				}
+			}
 			vk, err := crypto.UnmarshalSecp256k1PublicKey(a.PublicKey)
 			if err != nil {
 				tb.Fatalf("op #%d: published key bytes do not parse as secp256k1: %v", i, err)
@@ -366,7 +389,7 @@ func (f *flakyDS) Put(ctx context.Context, k ds.Key, v []byte) error {
 
 func TestC20(t *testing.T) {
 	c := ev.Get("C20")
-	c.Rule = "stateful model-based generation: 3-30 operations on 1-3 keystore instances sharing one datastore: create(id) (only for ids absent from the model, as every caller does), create with a failing datastore write (must fail and leave the id absent on every instance), get, has, reopen(instance), createBurst(130-300 fresh ids, beyond the 128-entry cache), createIdentity(id) on two instances; ids from a pool with slashes, unicode, spaces, long and hex-like names. Model = map id -> public key. has must be true exactly for created ids (false with an error counts as absent), get must return the created key or an error; identities created twice must be identical (incl. signatures), the id signature must verify under the published key over the id, the public-key signature under the key the id denotes over hex(publicKey || idSignature), and an entry signed with the identity must carry and verify under the published key; a final sweep queries every key on every instance and on a brand-new one. Non-trivial = a present id queried on another instance, after a reopen or after eviction (burst); distinct = distinct program."
+	c.Rule = "stateful model-based generation: 3-30 operations on 1-3 keystore instances sharing one datastore: create(id) (only for ids absent from the model, as every caller does), create with a failing datastore write (must fail and leave the id absent on every instance), get, has, reopen(instance), createBurst(130-300 fresh ids, beyond the 128-entry cache), createIdentity(id) on two instances; ids from a pool with slashes, unicode, spaces, long and hex-like names. Model = map id -> public key. has must be true exactly for created ids (false with an error counts as absent), get must return the created key or an error; identities created twice must be identical (incl. signatures), the id signature must verify under the published key over the id, the public-key signature under the key the id denotes over hex(publicKey || idSignature), and an entry signed with the identity - also through the provider object another identity was created with - must carry and verify under the published key; a final sweep queries every key on every instance and on a brand-new one. Non-trivial = a present id queried on another instance, after a reopen or after eviction (burst); distinct = distinct program."
 	c.Assumptions = []string{"ids are datastore-key-normal (no leading/trailing/double slashes or dot segments): the datastore cleans key paths, so such ids alias by construction", "create is only issued for ids that do not exist (CreateKey overwrites by design)"}
 	ev.Check(t, "C20", genC20, runC20)
 }
